@@ -179,7 +179,8 @@ func cmdC08(args []string) error {
 			return err
 		}
 		line := c08Line{Case: k, Desc: desc, Identical: identical, Files: []c08File{}}
-		dr, err := realDiffDirs(oldDir, newDir, compressionOf("NONE", 0))
+		// (half of the diffs get the old build's hashes the way a client does: from a stored signature read back)
+		dr, err := realDiffDirsEnv(oldDir, newDir, compressionOf("NONE", 0), diffEnv{StoredSig: k%2 == 1, SrcEOF: k%4 == 2})
 		if err != nil {
 			line.DiffErr = err.Error()
 			w.emit(line)
